@@ -67,7 +67,7 @@ class Config:
                 'method': self.method, 'prediv': self.prediv, 'sym': self.sym, 'cap_mb': self.cap_mb,
                 'accum': self.accum, 'hook': self.hook, 'arch': self.arch, 'batch': self.batch,
                 'hyper': {k: (str(v) if not isinstance(v, list) else [str(x) for x in v]) for k, v in self.hyper.items()},
-                'ops': list(self.ops), 'seed': self.seed,
+                'ops': list(self.ops), 'seed': self.seed, 'sched_seed': getattr(self, 'sched_seed', None),
                 'hyper_changes': [{k: (None if v is None else str(v)) for k, v in ch.items()}
                                   for ch in getattr(self, 'hyper_changes', [])]}
 
@@ -788,6 +788,9 @@ def oracle_trace(ctx, cfg, rr, key_prefix='trace'):
             return ctx.fail(f'rank {e[1]} communicated on a group it does not belong to: {e[2:]}', case, key_prefix + '-foreign')
         if e[0] == 'root-not-member':
             return ctx.fail(f'broadcast root {e[3]} is not a member of {e[2]}', case, key_prefix + '-root')
+        if e[0] == 'non-contiguous':
+            return ctx.fail(f'rank {e[1]} passed a non-contiguous tensor (shape {e[3]}, strides {e[4]}) to {e[2]}: '
+                            'NCCL rejects it, gloo silently sends the underlying storage', case, key_prefix + '-noncontiguous')
         if e[0] == 'new_group-order':
             return ctx.fail(f'rank {e[1]} created group {e[3]} where others created {e[4]}', case, key_prefix + '-newgroup')
         return ctx.fail(f'protocol error {e}', case, key_prefix + '-protocol')
